@@ -13,7 +13,25 @@ def is_call(x, name, cls=None):
 def ec_arg_class(p, arg):
     """Classify an error_code argument handed to a completion on path p:
        ('param', name) the continuation's ec parameter; ('literal', enum) ; ('success',) ; ('other',)"""
-    x = core(arg)
+    # peel helper parameters / copies; stop at a named error_code variable
+    x = arg
+    for _ in range(12):
+        if not isinstance(x, dict):
+            break
+        k = x.get('k')
+        if k == 'local' and x.get('tcls') == 'error_code':
+            init = core(x.get('e'))
+            if isinstance(init, dict) and init.get('k') == 'ctor' and init.get('cls') == 'error_code' \
+                    and init.get('args') and enum_of(core(init['args'][0])):
+                return ('literal', enum_of(core(init['args'][0])))
+            return ('local', x.get('n'))
+        if k in ('paramof', 'icast', 'cast', 'move', 'defarg'):
+            x = x.get('e')
+        elif k == 'ctor' and x.get('cls') == 'error_code' and len(x.get('args', [])) == 1 and x.get('copy'):
+            x = x['args'][0]
+        else:
+            break
+    x = core(x)
     for _ in range(6):
         if isinstance(x, dict) and x.get('k') == 'ctor' and x.get('cls') == 'error_code':
             a = x.get('args', [])
